@@ -88,6 +88,8 @@ def _falsified(fe, prop, tol=1e-6):
     k = prop.decl().kind() if z3.is_app(prop) else None
     if k == z3.Z3_OP_AND:
         return any(_falsified(fe, c, tol) for c in prop.children())
+    if k == z3.Z3_OP_OR:
+        return all(_falsified(fe, c, tol) for c in prop.children())
     if k in (z3.Z3_OP_EQ, z3.Z3_OP_LE, z3.Z3_OP_GE, z3.Z3_OP_LT, z3.Z3_OP_GT) and prop.arg(0).sort().kind() == z3.Z3_REAL_SORT:
         a, b = fe(prop.arg(0)), fe(prop.arg(1))
         if a != a or b != b:
